@@ -6,8 +6,8 @@
   points.  Two are repaired in /repo (F6: a864f95, F8: eb5160b) and `finalize_releases_all` now holds for EVERY
   state, resting on two facts the translator reads off the source (`stream_first`, `port_back`); the old
   shapes are kept as statements about `leftAfterFinallyWith false _` / `_ false`.  The third (F12, a connection
-  accepted but not yet dispatched when `Server.close()` runs) is still open: `close_hangs_on_undispatched`,
-  and `server_close_completes_partial` excludes exactly it.
+  accepted but not yet dispatched when `Server.close()` runs) was repaired in /repo: `server_close_completes` is
+  full strength, `old_close_hangs_on_undispatched` keeps the witness.
 -/
 import AioftpModel.Model.Lifecycle
 import AioftpModel.Lemmas.ReplyQueue
@@ -81,24 +81,47 @@ theorem clean_iff (a b : Bool) : (∀ s, leftAfterFinallyWith a b s = []) ↔ (a
       | none => rfl
       | some w' => rcases w' with ⟨pc⟩; cases pc <;> rfl
 
-/-- **server_close_completes_partial**: if every session's dispatcher has started, `Server.close()`
-    completes and leaves nothing (what is missing for the full statement: finding F12 below). -/
-theorem server_close_completes_partial (ss : List Sess)
-    (hd : ∀ s ∈ ss, s.dispatched = true) :
-    serverClose ss = ([], true) := by
+/-- obligation over the regenerated source: a dispatcher that starts when the server is no longer serving closes
+    its connection and returns (F12 repaired) -/
+theorem fact_dispatcher_refuses_when_not_serving : Generated.dispatcherRefusesWhenNotServing = true := by decide
+
+/-- **server_close_completes** (full strength): whatever sessions exist - dispatched at any program point, or
+    accepted with their dispatcher not yet started - `Server.close()` completes and leaves nothing. -/
+theorem server_close_completes (ss : List Sess) : serverClose ss = ([], true) := by
   unfold serverClose
+  rw [fact_dispatcher_refuses_when_not_serving]
+  unfold serverCloseWith
+  have h2 : ss.flatMap (fun s => if s.dispatched then leftAfterFinally s else if true = true then [] else held s) = [] := by
+    rw [List.flatMap_eq_nil_iff]
+    intro s _
+    by_cases hd : s.dispatched = true
+    · rw [if_pos hd]; exact finalize_releases_all s
+    · rw [if_neg hd]; simp
+  rw [h2]
+  simp
+
+/-- the part that held before the repair as well: if every session's dispatcher has started -/
+theorem server_close_completes_dispatched (refuses : Bool) (ss : List Sess)
+    (hd : ∀ s ∈ ss, s.dispatched = true) :
+    serverCloseWith refuses ss = ([], true) := by
+  unfold serverCloseWith
   have h1 : ss.all (·.dispatched) = true := by simpa using hd
-  have h2 : ss.flatMap (fun s => if s.dispatched then leftAfterFinally s else held s) = [] := by
+  have h2 : ss.flatMap (fun s => if s.dispatched then leftAfterFinally s else if refuses = true then [] else held s) = [] := by
     rw [List.flatMap_eq_nil_iff]
     intro s hs
     rw [if_pos (hd s hs)]
     exact finalize_releases_all s
   simp [h1, h2]
 
-/-- **negative witness 3** (F12): a connection accepted whose dispatcher has not started yet is invisible
-    to `Server.close()`: close does not complete and the session lives on. -/
-theorem close_hangs_on_undispatched :
-    (serverClose [undispatched]).2 = false ∧ (serverClose [undispatched]).1 ≠ [] := by decide
+/-- **old_close_hangs_on_undispatched** (F12, the defect that was repaired): without the guard a connection
+    accepted whose dispatcher has not started yet is invisible to `Server.close()`: close does not complete and
+    the session lives on. -/
+theorem old_close_hangs_on_undispatched :
+    (serverCloseWith false [undispatched]).2 = false ∧ (serverCloseWith false [undispatched]).1 ≠ [] := by decide
+
+/-- non-vacuity: with the guard the same situation is clean -/
+example : serverClose [undispatched, run [.dispatch, .login, .pasvStart true]] = ([], true) :=
+  server_close_completes _
 
 /-- a vanished peer is always cleaned up, dispatched or not, at every program point -/
 theorem peer_vanish_clean (s : Sess) : peerVanish s = [] := by
